@@ -204,9 +204,38 @@ class Repo:
             raise AnalysisError(f'anchor missing: source unit {rel}')
         return self.units[rel]
 
+    def _renamed(self, rel, qual):
+        """a known function that is gone from its scope while exactly one function the reference table has never seen
+        appeared in the same scope, of the same kind (sync / async) and the same number of parameters: a rename.  The rules
+        then judge the renamed function in the old one's place (reports carry the new name)."""
+        try:
+            from .normalize import _reference
+            ref = _reference().get(rel)
+        except Exception:
+            ref = None
+        if not ref:
+            return None
+        known = set(ref.get('functions', []))
+        if qual not in known:
+            return None
+        scope = qual.rsplit('.', 1)[0] if '.' in qual else ''
+        here = {f.qual: f for f in self.funcs.values() if f.unit.relpath == rel}
+
+        def in_scope(q_):
+            return (q_.rsplit('.', 1)[0] if '.' in q_ else '') == scope
+        lost = [q_ for q_ in known if in_scope(q_) and q_ not in here]
+        new = [f for q_, f in here.items() if in_scope(q_) and q_ not in known]
+        if lost != [qual] or len(new) != 1:
+            return None
+        return new[0]
+
     def func(self, mod, qual, required=True):
         key = f'{self.path(mod)}::{qual}'
         f = self.funcs.get(key)
+        if f is None:
+            f = self._renamed(self.path(mod), qual)
+            if f is not None:
+                self.funcs[key] = f
         if f is None and required:
             raise AnalysisError(f'anchor missing: function {key}')
         return f
